@@ -12,7 +12,7 @@ import re
 
 from sa.core import rule, AnalysisError
 from sa.pyindex import get_module, dotted, src, calls_in, fold, try_fold, \
-    all_py_files, Unfoldable
+    all_py_files, Unfoldable, walk_no_nested
 from sa import flow
 
 from rules import _opcodes as O
@@ -47,7 +47,32 @@ EXPLANATION = (
     "`raise AssertionError`.  R15.6: HAS_ARGUMENT <=> OpcodeWithArg base, and "
     "every constructor call passes a number of arguments __init__ accepts.  "
     "R15.8: every handler takes (state, op) and returns a state on every "
-    "path.  Not decided: exceptions raised inside handlers for reasons other "
+    "path.  R15.10: for every attribute that vm.py / vm_utils.py / "
+    "pattern_matching.py hand to len(), iteration, subscripting, `in` or "
+    "*-unpacking as `<x>.attr` with no test of `<x>.attr` on the path (nor "
+    "earlier in the same and/if-else expression), every `<recv>.attr = RHS` "
+    "in pytype/abstract/ and pytype/overlays/ is checked: the RHS is "
+    "classified nonnull / nullable / unknown (None literal, `a or b` by its "
+    "last operand, if-else arms, locals through reaching definitions incl. a "
+    "`= None` initialisation that a loop may not overwrite, None-default "
+    "parameters, getattr(.., None), and `self.m()` through the returns of "
+    "the method found along the class's bases); a definitely nullable "
+    "assignment to `self.attr` that can still be in force when the method "
+    "ends (may-flow) and is not followed by `if self.attr is None: <assign "
+    "or leave>` is a violation, unknown never is.  Attributes are matched by "
+    "name only (consumer and assignment may belong to different classes).  "
+    "R15.11: every `.splitlines()`, `.split('\\n')` and re.split call of the "
+    "package (non-test) is classified by what indexes its result (directly, "
+    "through the local or the self attribute it is bound to): a "
+    "splitlines() list indexed by a computed position is a violation unless "
+    "triaged (two .pyi-text sites), because splitlines also cuts at \\x0b "
+    "\\x0c \\x1c-\\x1e \\x85 \\u2028 \\u2029, which CPython's tokenizer keeps "
+    "inside a line; in the modules that handle the analysed source "
+    "(preprocess, directors/, errors/, blocks/, pyc/, vm, io) a "
+    "split('\\n') list indexed by position must be cut from text whose "
+    "\\r\\n / \\r were rewritten to \\n first (or by a re.split on all three "
+    "line ends), since CPython numbers lines at \\r\\n and lone \\r too.  Not "
+    "decided: exceptions raised inside handlers for reasons other "
     "than these (the abstract interpreter is not bounded by a static "
     "argument).")
 ASSUMPTIONS = [
@@ -60,6 +85,17 @@ ASSUMPTIONS = [
     "line <n>)' shape in every supported target version",
     "helpers are followed two call levels deep (self.*, vm_utils.*); operand "
     "reads through other aliases of `op` are not seen",
+    "R15.10: len(None), iterating None and None[i] raise TypeError; a method "
+    "that can fall off its end or `return None` is None-able; attributes "
+    "assigned outside abstract/ and overlays/ (or through setattr) are not "
+    "seen",
+    "R15.11: CPython ends a source line at \\n, \\r\\n and \\r only; "
+    "str.splitlines() additionally at \\x0b \\x0c \\x1c \\x1d \\x1e \\x85 "
+    "\\u2028 \\u2029; callers of preprocess.augment_annotations do not "
+    "normalise newlines (io.generate_pyi passes the caller's string through); "
+    "line lists passed on through a call or an alias are not followed; "
+    "errors.Error locates lines by scanning for '\\n' itself (no list) and is "
+    "not covered",
 ]
 
 VM = O.VM
@@ -1093,7 +1129,518 @@ def r15_9(ctx):
                 {"handler": sub + name, "line": target_fn.lineno})
 
 
+# -- R15.10 -----------------------------------------------------------------------
+# An attribute of an abstract value that the VM hands to len() / iteration /
+# indexing without a None test must never be assigned something None-able.
+
+_SEQ_CONSUMER_FILES = ("pytype/vm_utils.py", "pytype/vm.py",
+                       "pytype/pattern_matching.py")
+_ABS_DIRS = ("pytype/abstract/", "pytype/overlays/")
+_SEQ_FUNCS = {"len", "tuple", "list", "set", "frozenset", "sorted", "enumerate",
+              "zip", "iter", "reversed", "sum", "min", "max", "any", "all"}
+_NONNULL_FUNCS = {"tuple", "list", "set", "frozenset", "dict", "sorted", "str",
+                  "int", "bool", "len", "repr", "float", "bytes", "reversed",
+                  "enumerate", "zip", "map", "filter", "range", "type", "id",
+                  "hash", "isinstance", "sum", "abs", "format"}
+
+
+def _abs_files(ctx):
+  return [f for f in all_py_files(ctx)
+          if f.startswith(_ABS_DIRS) and not f.endswith("_test.py")
+          and not f.rsplit("/", 1)[-1].startswith("test_")]
+
+
+def _mentions(node, text):
+  return any(src(n) == text for n in ast.walk(node)
+             if isinstance(n, (ast.Attribute, ast.Name)))
+
+
+def _seq_consumers(ctx):
+  """attr -> [(file, line, how, receiver text, guarded)] for `X.attr` used as a
+  sized/iterable/subscriptable object in the VM files."""
+  out = {}
+  for rel in _SEQ_CONSUMER_FILES:
+    mod = get_module(ctx, rel)
+    for n in ast.walk(mod.tree):
+      hits = []
+      if isinstance(n, ast.Call) and dotted(n.func) in _SEQ_FUNCS:
+        hits = [(a, f"{dotted(n.func)}()") for a in n.args[:1]]
+      elif isinstance(n, (ast.For, ast.AsyncFor, ast.comprehension)):
+        hits = [(n.iter, "iteration")]
+      elif isinstance(n, ast.Subscript) and isinstance(n.ctx, ast.Load):
+        hits = [(n.value, "subscript")]
+      elif isinstance(n, ast.Starred) and isinstance(n.ctx, ast.Load):
+        hits = [(n.value, "*unpack")]
+      elif isinstance(n, ast.Compare) and len(n.ops) == 1 and \
+          isinstance(n.ops[0], (ast.In, ast.NotIn)):
+        hits = [(n.comparators[0], "in")]
+      for e, how in hits:
+        if not (isinstance(e, ast.Attribute) and isinstance(
+            e.value, (ast.Name, ast.Attribute)) and dotted(e)):
+          continue
+        text = src(e)
+        anchor = n if not isinstance(n, ast.comprehension) else mod.parent[n]
+        st = mod.enclosing_stmt(anchor)
+        guarded = any(_mentions(t, text) for t, _ in flow.guards(mod.parent, st))
+        # guards inside the expression: `x.a and len(x.a)`, `.. if x.a else ..`,
+        # and comprehension conditions
+        cur = anchor
+        while not guarded and cur is not st and cur in mod.parent:
+          par = mod.parent[cur]
+          if isinstance(par, ast.BoolOp):
+            i = par.values.index(cur) if cur in par.values else 0
+            guarded = any(_mentions(v, text) for v in par.values[:i])
+          elif isinstance(par, ast.IfExp) and cur is not par.test:
+            guarded = _mentions(par.test, text)
+          cur = par
+        if isinstance(st, (ast.If, ast.While)) and not guarded and \
+            _within(mod, anchor, st.test) is False:
+          pass
+        out.setdefault(e.attr, []).append(
+            {"file": rel, "line": getattr(anchor, "lineno", st.lineno), "how": how,
+             "expr": text, "guarded": guarded})
+  return out
+
+
+def _within(mod, node, root):
+  while node is not None:
+    if node is root:
+      return True
+    node = mod.parent.get(node)
+  return False
+
+
+class _Nullness:
+  """nonnull / nullable / unknown for an expression (never guesses nullable)."""
+
+  def __init__(self, ctx):
+    self.ctx = ctx
+    self._classes = None
+    self._summ = {}
+    self._rd = {}
+
+  def classes(self):
+    if self._classes is None:
+      self._classes = {}
+      for rel in _abs_files(self.ctx):
+        mod = get_module(self.ctx, rel)
+        for n in ast.walk(mod.tree):
+          if isinstance(n, ast.ClassDef):
+            self._classes.setdefault(n.name, []).append((mod, n))
+    return self._classes
+
+  def resolve_method(self, mod, cls, name, depth=0, seen=None):
+    """The def of `name` found along the bases of cls (by class name)."""
+    seen = seen or set()
+    if cls in seen or depth > 8:
+      return None
+    seen.add(cls)
+    for st in cls.body:
+      if isinstance(st, ast.FunctionDef) and st.name == name:
+        return mod, st
+    for b in cls.bases:
+      bn = (dotted(b) or "").split(".")[-1]
+      cands = self.classes().get(bn, [])
+      same = [c for c in cands if c[0] is mod] or cands
+      if len(same) == 1:
+        r = self.resolve_method(same[0][0], same[0][1], name, depth + 1, seen)
+        if r:
+          return r
+    return None
+
+  def summary(self, mod, fn, depth):
+    key = fn
+    if key in self._summ:
+      return self._summ[key]
+    self._summ[key] = "unknown"   # recursion guard
+    if any(isinstance(n, (ast.Yield, ast.YieldFrom)) for n in walk_no_nested(fn)) or \
+        isinstance(fn, ast.AsyncFunctionDef) or fn.decorator_list:
+      return "unknown"
+    rets = [n for n in walk_no_nested(fn) if isinstance(n, ast.Return)]
+    res = []
+    if not flow.terminates(fn.body):
+      res.append("nullable")
+    for r in rets:
+      res.append("nullable" if r.value is None else self.of(mod, r.value, r, depth + 1))
+    out = "nullable" if "nullable" in res else (
+        "nonnull" if res and all(x == "nonnull" for x in res) else "unknown")
+    self._summ[key] = out
+    return out
+
+  def rd(self, fn):
+    if fn not in self._rd:
+      from rules._pytd_schema import reaching
+      self._rd[fn] = reaching(fn)
+    return self._rd[fn]
+
+  def of(self, mod, e, stmt, depth=0):
+    if depth > 5:
+      return "unknown"
+    if isinstance(e, ast.Constant):
+      return "nullable" if e.value is None else "nonnull"
+    if isinstance(e, (ast.Tuple, ast.List, ast.Set, ast.Dict, ast.ListComp, ast.SetComp,
+                      ast.DictComp, ast.GeneratorExp, ast.JoinedStr, ast.Lambda,
+                      ast.Compare)):
+      return "nonnull"
+    if isinstance(e, ast.NamedExpr):
+      return self.of(mod, e.value, stmt, depth + 1)
+    if isinstance(e, ast.BoolOp):
+      vals = [self.of(mod, v, stmt, depth + 1) for v in e.values]
+      if isinstance(e.op, ast.Or):
+        return vals[-1]
+      return "nullable" if "nullable" in vals else (
+          "nonnull" if all(v == "nonnull" for v in vals) else "unknown")
+    if isinstance(e, ast.IfExp):
+      # an arm that the condition itself talks about is not decided
+      vals = ["unknown" if _mentions(e.test, src(arm)) and not isinstance(arm, ast.Constant)
+              else self.of(mod, arm, stmt, depth + 1) for arm in (e.body, e.orelse)]
+      return "nullable" if "nullable" in vals else (
+          "nonnull" if all(v == "nonnull" for v in vals) else "unknown")
+    if isinstance(e, ast.BinOp):
+      return "nonnull"   # an operator result; None has no operators
+    if isinstance(e, ast.Call):
+      d = dotted(e.func)
+      if d in _NONNULL_FUNCS:
+        return "nonnull"
+      if d == "getattr" and len(e.args) == 3:
+        return self.of(mod, e.args[2], stmt, depth + 1) if isinstance(
+            e.args[2], ast.Constant) and e.args[2].value is None else "unknown"
+      if isinstance(e.func, ast.Attribute) and isinstance(e.func.value, ast.Name):
+        fn = mod.enclosing_function(stmt)
+        meth = fn
+        while meth is not None and not isinstance(mod.parent.get(meth), ast.ClassDef):
+          meth = mod.enclosing_function(meth)
+        if meth is not None and not isinstance(meth, ast.Lambda) and meth.args.args \
+            and e.func.value.id == meth.args.args[0].arg:
+          r = self.resolve_method(mod, mod.parent[meth], e.func.attr)
+          if r:
+            return self.summary(r[0], r[1], depth)
+      return "unknown"
+    if isinstance(e, ast.Name):
+      fn = mod.enclosing_function(stmt)
+      if fn is None or isinstance(fn, ast.Lambda):
+        return "unknown"
+      for t, pol in flow.guards(mod.parent, stmt):
+        if _mentions(t, e.id):
+          return "unknown"   # tested on the path: not decided
+      from rules._pytd_schema import defs_at
+      defs = defs_at(self.rd(fn), stmt, e.id)
+      if not defs:
+        a = fn.args
+        pos = a.posonlyargs + a.args
+        dflt = dict(zip([p.arg for p in pos[len(pos) - len(a.defaults):]], a.defaults))
+        dflt.update({p.arg: d for p, d in zip(a.kwonlyargs, a.kw_defaults) if d is not None})
+        d = dflt.get(e.id)
+        if isinstance(d, ast.Constant) and d.value is None:
+          return "nullable"
+        return "unknown"
+      vals = []
+      for d in defs:
+        v = None
+        if isinstance(d, ast.Assign) and len(d.targets) == 1 and \
+            isinstance(d.targets[0], ast.Name) and d.targets[0].id == e.id:
+          v = d.value
+        vals.append(self.of(mod, v, d, depth + 1) if v is not None and d is not stmt
+                    else "unknown")
+      return "nullable" if "nullable" in vals else (
+          "nonnull" if all(v == "nonnull" for v in vals) else "unknown")
+    return "unknown"
+
+
+def _attr_store(t, recv=None):
+  return isinstance(t, ast.Attribute) and isinstance(t.value, ast.Name) and \
+      isinstance(t.ctx, ast.Store) and (recv is None or t.value.id == recv)
+
+
+def _repaired(mod, d, recv, attr):
+  """A later `if <recv>.<attr> is None:` / `if not <recv>.<attr>:` in an
+  enclosing block whose body (re)assigns the attribute or leaves."""
+  want = {f"{recv}.{attr} is None", f"not {recv}.{attr}", f"{recv}.{attr} == None"}
+  node = d
+  while node in mod.parent:
+    par = mod.parent[node]
+    for fld in ("body", "orelse", "finalbody"):
+      blk = getattr(par, fld, None)
+      if isinstance(blk, list) and node in blk:
+        for later in blk[blk.index(node) + 1:]:
+          if isinstance(later, ast.If) and src(later.test) in want:
+            if flow.terminates(later.body):
+              return True
+            for s in later.body:
+              if isinstance(s, ast.Assign) and any(
+                  _attr_store(t, recv) and t.attr == attr for t in s.targets):
+                return True
+    if isinstance(par, (ast.FunctionDef, ast.AsyncFunctionDef)):
+      break
+    node = par
+  return False
+
+
+@rule("R15.10", "C15", floor=30)
+def r15_10(ctx):
+  """Sequence-like attributes of abstract values are never left None."""
+  consumers = _seq_consumers(ctx)
+  if "match_args" not in consumers:
+    raise AnalysisError("vm_utils: the len()/slice use of <cls>.match_args was "
+                        "not found (anchor of R15.10)")
+  nul = _Nullness(ctx)
+  n_sites = 0
+  for rel in _abs_files(ctx):
+    mod = get_module(ctx, rel)
+    for fn in ast.walk(mod.tree):
+      if not isinstance(fn, (ast.FunctionDef, ast.AsyncFunctionDef)):
+        continue
+      stores = {}
+      for n in walk_no_nested(fn):
+        if isinstance(n, ast.Assign):
+          for t in n.targets:
+            if _attr_store(t) and t.attr in consumers:
+              stores.setdefault((t.value.id, t.attr), []).append(n)
+      if not stores:
+        continue
+      selfname = fn.args.args[0].arg if fn.args.args and isinstance(
+          mod.parent.get(fn), ast.ClassDef) else None
+      qual = O_qual(mod, fn)
+      for (recv, attr), assigns in sorted(stores.items()):
+        open_uses = [c for c in consumers[attr] if not c["guarded"]]
+        cls_of = {a: nul.of(mod, a.value, a) for a in assigns}
+        facts = {"attribute": attr, "receiver": recv,
+                 "assigned": [f"{src(a.value)[:50]} -> {cls_of[a]}" for a in assigns],
+                 "unguarded_consumers": [f"{c['file']}:{c['line']} {c['how']} {c['expr']}"
+                                         for c in open_uses][:4]}
+        n_sites += 1
+        construct = f"{rel.removeprefix('pytype/')}:{qual}:{recv}.{attr}"
+        if not open_uses:
+          ctx.ok(construct, rel, assigns[0].lineno, facts | {"note": "every consumer tests it"})
+          continue
+        bad = [a for a in assigns if cls_of[a] == "nullable"]
+        if recv == selfname and bad:
+          # only the definitions that can still be in force when the method ends
+          def gen(unit, attr=attr, recv=recv):
+            if isinstance(unit, ast.Assign) and any(
+                _attr_store(t, recv) and t.attr == attr for t in unit.targets):
+              return {unit}
+            return None
+
+          def kill(unit, attr=attr, recv=recv):
+            if isinstance(unit, ast.Assign) and any(
+                _attr_store(t, recv) and t.attr == attr for t in unit.targets):
+              return lambda fact: True
+            return None
+          fl = flow.flow(fn, gen, kill, mode="may")
+          live = set()
+          for kind, _, st in fl.exits:
+            if kind in ("return", "end") and st:
+              live |= set(st)
+          bad = [a for a in bad if a in live and not _repaired(mod, a, recv, attr)]
+        if bad:
+          b = bad[0]
+          ctx.bad(f"{construct}:may-be-None", rel, b.lineno,
+                  f"{qual} can leave `{recv}.{attr}` None (`{src(b.value)[:70]}` "
+                  "is None on some path and nothing after it supplies a "
+                  f"default), but {open_uses[0]['file']}:{open_uses[0]['line']} "
+                  f"applies {open_uses[0]['how']} to `{open_uses[0]['expr']}` "
+                  "without a None test: TypeError inside the analysis", facts)
+        else:
+          ctx.ok(construct, rel, assigns[0].lineno, facts)
+  if n_sites == 0:
+    raise AnalysisError("no assignment to a consumed attribute found under "
+                        f"{_ABS_DIRS}")
+
+
+def O_qual(mod, node):
+  parts = [node.name]
+  cur = node
+  while cur in mod.parent:
+    cur = mod.parent[cur]
+    if isinstance(cur, (ast.FunctionDef, ast.AsyncFunctionDef, ast.ClassDef)):
+      parts.append(cur.name)
+  return ".".join(reversed(parts))
+
+
+# -- R15.11 -----------------------------------------------------------------------
+# A list of source lines that is indexed by a line number (ast / tokenize /
+# opcode numbering) must be cut exactly where CPython ends a line: at \n, \r\n
+# and \r - nowhere else.
+
+# str.splitlines() also cuts at \x0b \x0c \x1c \x1d \x1e \x85    
+# (reference: CPython's str.splitlines documentation / unicodeobject.c)
+_SOURCE_LINE_FILES = ("pytype/preprocess.py", "pytype/io.py", "pytype/vm.py",
+                      "pytype/vm_utils.py", "pytype/tracer_vm.py", "pytype/analyze.py",
+                      "pytype/context.py", "pytype/constant_folding.py")
+_SOURCE_LINE_DIRS = ("pytype/directors/", "pytype/errors/", "pytype/blocks/",
+                     "pytype/pyc/")
+# splitlines() results indexed by a position, triaged: (file, function) -> why
+# a misnumbered line cannot become an internal failure of an *analysis*
+_SPLITLINES_INDEXED_OK = {
+    ("pytype/pyi/parser.py", "_fix_src"):
+        "stub (.pyi) text, not the analysed source: a separator character in "
+        "a stub only makes the keyword-renaming workaround patch the wrong "
+        "line, and the stub is then rejected with the original ParseError",
+    ("pytype/pyi/types.py", "ParseError.at"):
+        "stub (.pyi) text: picks the line quoted in a ParseError message; "
+        "IndexError is caught, a wrong line only changes the quoted text",
+}
+
+
+def _line_split_kind(call):
+  """'splitlines' / 'split-newline' / 're-split' for a call that cuts text into
+  lines, else None."""
+  f = call.func
+  if isinstance(f, ast.Attribute) and f.attr == "splitlines":
+    return "splitlines"
+  if isinstance(f, ast.Attribute) and f.attr == "split" and len(call.args) >= 1 and \
+      isinstance(call.args[0], ast.Constant) and call.args[0].value in ("\n", b"\n"):
+    return "split-newline"
+  if dotted(f) == "re.split" and len(call.args) >= 2 and \
+      isinstance(call.args[0], ast.Constant) and isinstance(call.args[0].value, str) \
+      and "\n" in _unescape(call.args[0].value):
+    return "re-split"
+  return None
+
+
+def _unescape(pat):
+  return pat.replace("\\r", "\r").replace("\\n", "\n")
+
+
+def _is_position(sl):
+  """The subscript is computed (not [0], [-1], [2:], [:3])."""
+  if isinstance(sl, ast.Slice):
+    return any(b is not None and try_fold(b) is None for b in (sl.lower, sl.upper, sl.step))
+  return try_fold(sl) is None
+
+
+def _position_uses(mod, call):
+  """Subscripts with a computed index applied to the result of `call`
+  (directly, through the local or through the self attribute it is bound to)."""
+  par = mod.parent.get(call)
+  uses = []
+  if isinstance(par, ast.Subscript) and par.value is call:
+    if _is_position(par.slice):
+      uses.append(par)
+    return uses
+  if not (isinstance(par, (ast.Assign, ast.AnnAssign)) and par.value is call):
+    return uses
+  targets = par.targets if isinstance(par, ast.Assign) else [par.target]
+  fn = mod.enclosing_function(call)
+  for t in targets:
+    if isinstance(t, ast.Name) and fn is not None:
+      scope = fn
+    elif isinstance(t, ast.Attribute) and isinstance(t.value, ast.Name):
+      scope = fn
+      while scope is not None and not isinstance(mod.parent.get(scope), ast.ClassDef):
+        scope = mod.enclosing_function(scope)
+      scope = mod.parent.get(scope) if scope is not None else None
+    else:
+      continue
+    if scope is None:
+      continue
+    want = src(t)
+    for n in ast.walk(scope):
+      if isinstance(n, ast.Subscript) and src(n.value) == want and _is_position(n.slice):
+        uses.append(n)
+  return uses
+
+
+def _normalises_newlines(expr):
+  """The expression rewrites \\r\\n / \\r to \\n (str.replace / re.sub)."""
+  for n in ast.walk(expr):
+    if isinstance(n, ast.Call) and n.args and isinstance(n.args[0], ast.Constant) \
+        and isinstance(n.args[0].value, str):
+      name = n.func.attr if isinstance(n.func, ast.Attribute) else dotted(n.func)
+      if name in ("replace", "sub") and "\r" in _unescape(n.args[0].value):
+        return True
+  return False
+
+
+def _receiver_normalised(mod, call):
+  recv = call.func.value if isinstance(call.func, ast.Attribute) else call.args[1]
+  if _normalises_newlines(recv):
+    return True
+  if isinstance(recv, ast.Name):
+    fn = mod.enclosing_function(call)
+    if fn is None or isinstance(fn, ast.Lambda):
+      return False
+    from rules._pytd_schema import reaching, defs_at
+    defs = defs_at(reaching(fn), mod.enclosing_stmt(call), recv.id)
+    return bool(defs) and all(
+        isinstance(d, ast.Assign) and _normalises_newlines(d.value) for d in defs)
+  return False
+
+
+@rule("R15.11", "C15", floor=14)
+def r15_11(ctx):
+  """Line lists indexed by line numbers are cut where CPython cuts lines."""
+  n = 0
+  for rel in all_py_files(ctx):
+    base = rel.rsplit("/", 1)[-1]
+    if base.endswith("_test.py") or base.startswith("test_") or "/tests/" in rel:
+      continue
+    text = ctx.read(rel)
+    if "splitlines" not in text and ".split(" not in text:
+      continue
+    mod = get_module(ctx, rel)
+    counts = {}
+    for call in calls_in(mod.tree):
+      kind = _line_split_kind(call)
+      if kind is None:
+        continue
+      qual = O_qual(mod, mod.enclosing_function(call)) if isinstance(
+          mod.enclosing_function(call), (ast.FunctionDef, ast.AsyncFunctionDef)) \
+          else "<module>"
+      k = (qual, kind)
+      counts[k] = counts.get(k, 0) + 1
+      construct = f"{rel.removeprefix('pytype/')}:{qual}:{kind}" + (
+          f"#{counts[k]}" if counts[k] > 1 else "")
+      uses = _position_uses(mod, call)
+      facts = {"call": src(call)[:60], "kind": kind,
+               "indexed_by": sorted({src(u.slice) for u in uses})}
+      n += 1
+      if not uses:
+        ctx.ok(construct, rel, call.lineno, facts | {"note": "not indexed by a computed position"})
+        continue
+      where = f"{uses[0].lineno}: [{src(uses[0].slice)}]"
+      if kind == "splitlines":
+        why = _SPLITLINES_INDEXED_OK.get((rel, qual))
+        if why is None:
+          ctx.bad(f"{construct}:position-indexed", rel, call.lineno,
+                  f"the list made by `{src(call)[:50]}` is indexed by a computed "
+                  f"position (line {where}); str.splitlines() also cuts at form "
+                  "feed, \\x0b, \\x1c-\\x1e, \\x85, \\u2028 and \\u2029, which are "
+                  "legal inside a Python line, so after such a character every "
+                  "ast/tokenize/opcode line number addresses the wrong element "
+                  "(wrong line rewritten or reported, IndexError past the end)",
+                  facts)
+        else:
+          ctx.ok(construct, rel, call.lineno, facts | {"triaged": why})
+        continue
+      in_domain = rel in _SOURCE_LINE_FILES or rel.startswith(_SOURCE_LINE_DIRS)
+      if kind == "re-split":
+        pat = _unescape(call.args[0].value)
+        ok = "\r\n" in pat and pat.replace("\r\n", "").count("\r") >= 1
+        ctx.check(ok or not in_domain, f"{construct}:pattern", rel, call.lineno,
+                  f"re.split({call.args[0].value!r}, ..) does not cut at each of "
+                  "\\r\\n, \\r and \\n, but its result is indexed by line number",
+                  facts)
+        continue
+      if in_domain and not _receiver_normalised(mod, call):
+        ctx.bad(f"{construct}:no-newline-normalisation", rel, call.lineno,
+                f"`{src(call)[:50]}` is indexed by line number (line {where}) but "
+                "the text is not normalised first: CPython also ends a line at "
+                "\\r\\n and at a lone \\r, so for such a source the ast line "
+                "numbers and this list disagree (a \\r stays inside the element, "
+                "or the list is shorter than the numbering: IndexError)", facts)
+      else:
+        ctx.ok(construct, rel, call.lineno, facts | {"analysed_source": in_domain})
+  if n == 0:
+    raise AnalysisError("no line-splitting call found under pytype/")
+
+
 _ET = ERROR_TYPES
+_CLASSES = "pytype/abstract/_classes.py"
+_MATCH_ARGS = "    self.match_args = self._convert_str_tuple(\"__match_args__\") or ()\n"
+PREPROCESS = "pytype/preprocess.py"
+_SPLIT_TODAY = "    lines = src.split(\"\\n\")\n"
 
 VARIANTS = [
     # -- R15.1
@@ -1254,4 +1801,71 @@ VARIANTS = [
     {"name": "twin-intrinsic-default-argument", "rule": "R15.9", "file": VM, "expect": "silent",
      "old": "  def byte_INTRINSIC_PRINT(self, state):",
      "new": "  def byte_INTRINSIC_PRINT(self, state, op=None):"},
+    # -- R15.10
+    {"name": "seeded-C15-m1", "rule": "R15.10", "patch": "seeded/C15-m1/patch.diff",
+     "expect": "fire"},
+    {"name": "pytd-class-match-args-loses-default", "rule": "R15.10", "file": _CLASSES,
+     "expect": "fire",
+     "old": "    elif self.load_lazy_attribute(\"__match_args__\"):\n" + _MATCH_ARGS.replace("    self", "      self"),
+     "new": "    elif self.load_lazy_attribute(\"__match_args__\"):\n"
+            "      self.match_args = self._convert_str_tuple(\"__match_args__\")\n"},
+    {"name": "dataclass-match-args-none-when-empty", "rule": "R15.10",
+     "file": "pytype/overlays/dataclass_overlay.py", "expect": "fire",
+     "old": "    cls.match_args = tuple(attr.name for attr in attrs)\n",
+     "new": "    cls.match_args = tuple(attr.name for attr in attrs) if attrs else None\n"},
+    {"name": "match-args-searched-in-a-loop-that-may-not-assign", "rule": "R15.10",
+     "file": _CLASSES, "expect": "fire",
+     "old": "    self.slots = self._convert_str_tuple(\"__slots__\")\n" + _MATCH_ARGS,
+     "new": "    self.slots = self._convert_str_tuple(\"__slots__\")\n"
+            "    found = None\n"
+            "    for key in (\"__match_args__\",):\n"
+            "      if key in self.members:\n"
+            "        found = self._convert_str_tuple(key)\n"
+            "    self.match_args = found\n"},
+    {"name": "twin-default-spelled-tuple-call", "rule": "R15.10", "file": _CLASSES,
+     "expect": "silent",
+     "old": "    self.slots = self._convert_str_tuple(\"__slots__\")\n" + _MATCH_ARGS,
+     "new": "    self.slots = self._convert_str_tuple(\"__slots__\")\n"
+            "    self.match_args = self._convert_str_tuple(\"__match_args__\") or tuple()\n"},
+    {"name": "twin-none-repaired-by-following-test", "rule": "R15.10", "file": _CLASSES,
+     "expect": "silent",
+     "old": "    self.slots = self._convert_str_tuple(\"__slots__\")\n" + _MATCH_ARGS,
+     "new": "    self.slots = self._convert_str_tuple(\"__slots__\")\n"
+            "    self.match_args = self._convert_str_tuple(\"__match_args__\")\n"
+            "    if self.match_args is None:\n      self.match_args = ()\n"},
+    {"name": "twin-conditional-expression-default", "rule": "R15.10", "file": _CLASSES,
+     "expect": "silent",
+     "old": "    self.slots = self._convert_str_tuple(\"__slots__\")\n" + _MATCH_ARGS,
+     "new": "    self.slots = self._convert_str_tuple(\"__slots__\")\n"
+            "    declared = self._convert_str_tuple(\"__match_args__\")\n"
+            "    self.match_args = declared if declared is not None else ()\n"},
+    # -- R15.11 (the `twin-` variants also normalise the newlines in
+    # preprocess.augment_annotations, the defect the rule reports on the
+    # reference tree, so that they are silent there)
+    {"name": "seeded-C15-m2", "rule": "R15.11", "patch": "seeded/C15-m2/patch.diff",
+     "expect": "fire"},
+    {"name": "trace-source-lines-by-splitlines", "rule": "R15.11",
+     "file": "pytype/tools/traces/source.py", "expect": "fire",
+     "old": "    self._lines = src.split(\"\\n\")\n",
+     "new": "    self._lines = src.splitlines()\n"},
+    {"name": "error-text-line-picked-from-splitlines", "rule": "R15.11",
+     "file": ERRORS, "expect": "fire",
+     "old": "          self._src[point_idx[0] : point_idx[-1]]\n          + \"\\n\"\n",
+     "new": "          self._src.splitlines()[self._line - 1]\n          + \"\\n\"\n"},
+    {"name": "preprocess-keepends-splitlines", "rule": "R15.11", "expect": "fire",
+     "edits": [(PREPROCESS, _SPLIT_TODAY, "    lines = src.splitlines(keepends=True)\n"),
+               (PREPROCESS, "    src = \"\\n\".join(lines)\n", "    src = \"\".join(lines)\n")]},
+    {"name": "twin-normalise-then-split", "rule": "R15.11", "file": PREPROCESS,
+     "expect": "silent", "old": _SPLIT_TODAY,
+     "new": "    lines = src.replace(\"\\r\\n\", \"\\n\").replace(\"\\r\", \"\\n\").split(\"\\n\")\n"},
+    {"name": "twin-normalised-text-in-a-local", "rule": "R15.11", "file": PREPROCESS,
+     "expect": "silent", "old": _SPLIT_TODAY,
+     "new": "    text = re.sub(r\"\\r\\n?\", \"\\n\", src)\n    lines = text.split(\"\\n\")\n"},
+    {"name": "twin-splitlines-only-counted", "rule": "R15.11", "file": PREPROCESS,
+     "expect": "silent", "old": _SPLIT_TODAY,
+     "new": "    log_rows = len(src.splitlines())\n"
+            "    lines = src.replace(\"\\r\\n\", \"\\n\").replace(\"\\r\", \"\\n\").split(\"\\n\")\n"},
+    {"name": "twin-cpython-line-ends-by-re-split", "rule": "R15.11", "file": PREPROCESS,
+     "expect": "silent", "old": _SPLIT_TODAY,
+     "new": "    lines = re.split(\"\\r\\n|\\r|\\n\", src)\n"},
 ]
